@@ -6,6 +6,7 @@ import (
 	"os"
 
 	"verifharness/vcodec"
+	"verifharness/vlive"
 	"verifharness/vpair"
 	"verifharness/vsend"
 	"verifharness/vsession"
@@ -42,6 +43,8 @@ func main() {
 		os.Exit(vcodec.ValuesMain(os.Args[2:]))
 	case "schedule":
 		os.Exit(vcodec.ScheduleMain(os.Args[2:]))
+	case "live":
+		os.Exit(vlive.Main(os.Args[2:]))
 	case "pair":
 		os.Exit(vpair.Main(os.Args[2:]))
 	case "send":
